@@ -99,6 +99,10 @@ def _impl(tier, seed, search):
     for name, f in calls.items():
         for fv in FORMS(v3):
             observe('container-forms', f'{name}[{type(fv).__name__}{getattr(fv, "shape", "")}]', f, [fv], sig=f'mutates:{name}')
+    # array arguments that a function might wrap in place: angles outside [-pi, pi), float64 arrays of several shapes
+    for shp in ((5,), (2, 3), (1,)):
+        for nm_, f_ in (('angdiff(a)', lambda a_: b.angdiff(a_)), ('angdiff(a, b)', lambda a_: b.angdiff(a_, a_ * 0.5)), ('getunit(a, deg)', lambda a_: b.getunit(a_, 'deg')), ('getunit(a, rad)', lambda a_: b.getunit(a_, 'rad'))):
+            observe('array-argument', f'{nm_}[float64{shp}]', f_, [g.uniform(-20, 20, size=shp)], sig=f'mutates:{nm_.split("(")[0]}')
     for name, f in {'qqmul': lambda q: b.qqmul(q, q), 'q2r': b.q2r, 'UnitQuaternion': lambda q: UnitQuaternion(q), 'Quaternion': lambda q: Quaternion(q), 'conj': b.conj}.items():
         for fv in FORMS(v4)[:3]:
             observe('container-forms', f'{name}[{type(fv).__name__}]', f, [fv], sig=f'mutates:{name}')
@@ -205,7 +209,7 @@ def _impl(tier, seed, search):
         if pname in ('theta', 'angle', 'th', 'k', 'lam', 'lamda', 'lambd', 'l'): return 0.3
         if pname in ('n', 'N'): return 2
         if pname in ('bounds',): return np.array([1.0, -1.0, -1.0, 1.0, -1.0, 1.0]) if variant == 0 else [-1.0, 1.0, -1.0, 1.0, -1.0, 1.0]
-        if pname in ('x', 'p', 'point', 'v', 'P', 'pt'): return g.normal(size=dim) if variant == 0 else list(g.normal(size=dim))
+        if pname in ('x', 'p', 'point', 'v', 'P', 'pt'): return g.normal(size=dim) if variant == 0 else (g.normal(size=(dim, 4)) if variant == 1 else list(g.normal(size=dim)))
         if pname in ('plane',): return Plane.PN(g.normal(size=3), g.normal(size=3))
         if pname in ('T',): return SE3(inputs.se3(g, 1))
         raise KeyError(pname)
@@ -223,7 +227,7 @@ def _impl(tier, seed, search):
             if not req and not opt: continue
             req = req + opt
             flags = [{}] + ([{'shortest': True}] if 'shortest' in sig_.parameters else [])
-            for variant in (0, 1):
+            for variant in (0, 1, 2):
                 try: args_ = [supply(iname, X, p_.name, variant) for p_ in req]
                 except KeyError: break
                 for kw_ in flags:
@@ -231,6 +235,19 @@ def _impl(tier, seed, search):
                     observe('method-with-args', f'{iname}.{attr}({", ".join(p_.name for p_ in req)}{"".join(", " + k_ + "=True" for k_ in kw_)})',
                             lambda recv, *a_, attr=attr, kw_=kw_, names_=[p_.name for p_ in req]: getattr(recv, attr)(**dict(zip(names_, a_)), **kw_), [X] + args_, sig=f'mutates-argument:{iname.split("[")[0].split("#")[0]}.{attr}')
     L.stats['methods_with_arguments'] = nargm
+    # ---- 3a'''. copy construction is a copy: list mutations of the copy leave the source alone (every list-capable class)
+    for iname, X in instances():
+        if not isinstance(X, SMUserList) or '#' in iname: continue
+        cls_ = type(X)
+        for mut_name, mut in (('append', lambda B_: B_.append(B_[0])), ('reverse', lambda B_: B_.reverse()), ('pop', lambda B_: B_.pop()), ('setitem', lambda B_: B_.__setitem__(0, B_[-1])), ('clear', lambda B_: B_.clear())):
+            L.count('copy-then-mutate', key=(iname, mut_name)); L.sample('copy-then-mutate', dict(cls=iname, mutation=mut_name))
+            try:
+                A_ = copy.deepcopy(X); b0 = snap(A_); B_ = cls_(A_)
+                if len(B_) != len(A_): continue        # (a copy constructor that does not copy all values is another matter)
+                mut(B_)
+            except Exception: continue
+            if snap(A_) != b0:
+                L.fail(f'copy-aliases:{iname.split("[")[0]}', f'{iname}: after B = {cls_.__name__}(A), B.{mut_name}(...) changed A', dict(cls=iname, mutation=mut_name))
     # ---- 3a''. histories: an object built from / derived from another value is then the target of an augmented operator; the source must be unchanged
     for cname, cls, mkm in (('SE3', SE3, lambda: inputs.se3(g, 1)), ('SO3', SO3, lambda: inputs.so3(g)), ('SE2', SE2, lambda: inputs.se2(g, 1)), ('SO2', SO2, lambda: inputs.so2(g))):
         for opn, aug in (('*=', operator.imul), ('/=', operator.itruediv)):
